@@ -180,8 +180,46 @@ def quoteTok : Tok → List Tok
 
 def quoteToks (ts : List Tok) : List Tok := ts.flatMap quoteTok
 
-/-- `safely_quote` -/
+/-- `safely_quote(string)` (default `safe="/"`) -/
 def safelyQuote (s : Str) : Str := render (quoteToks (tokens s))
+
+/-! ### `safely_quote(string, safe=…)`
+
+`safely_quote_qsl` calls `safely_quote(item, safe="/+")`: in a query a raw `+` stands for a
+space and `%2B` for a plus sign, so quoting must leave the raw `+` alone (FX-C01-PLUS).  The
+`…By f` functions are `safely_quote` with an arbitrary set `f` of characters left alone;
+`quoteSafeIn safe` is the set `urllib.parse.quote(…, safe=safe)` leaves alone. -/
+
+/-- `_ALWAYS_SAFE` of `urllib.parse`: letters, digits and `_.-~` -/
+def quoteAlwaysSafe (c : Char) : Bool :=
+  isAsciiAlpha c || isAsciiDigit c || c = '_' || c = '.' || c = '-' || c = '~'
+
+/-- characters `urllib.parse.quote(…, safe=safe)` leaves alone: `_ALWAYS_SAFE` and the ASCII
+characters of `safe` (`safe.encode("ascii", "ignore")`) -/
+def quoteSafeIn (safe : Str) (c : Char) : Bool :=
+  quoteAlwaysSafe c || (decide (c.toNat < 0x80) && safe.contains c)
+
+def quoteTokBy (f : Char → Bool) : Tok → List Tok
+  | .raw c => if f c then [.raw c] else (utf8 c).map escOfByte
+  | .esc h1 h2 => [.esc h1 h2]
+  | .stray => [.esc '2' '5']
+
+def quoteToksBy (f : Char → Bool) (ts : List Tok) : List Tok := ts.flatMap (quoteTokBy f)
+
+/-- `safely_quote` with the set `f` of characters left alone -/
+def safelyQuoteBy (f : Char → Bool) (s : Str) : Str := render (quoteToksBy f (tokens s))
+
+/-- `safely_quote(string, safe=safe)` -/
+def safelyQuoteIn (safe : Str) (s : Str) : Str := safelyQuoteBy (quoteSafeIn safe) s
+
+/-- the `safe` argument `safely_quote_qsl` passes -/
+def qslSafe : Str := ['/', '+']
+
+/-- what `safely_quote_qsl` leaves alone in a key or value -/
+def quoteSafeQ (c : Char) : Bool := quoteSafeIn qslSafe c
+
+/-- `safely_quote(item, safe="/+")`: a query key or value -/
+def quoteQueryItem (s : Str) : Str := safelyQuoteBy quoteSafeQ s
 
 /-! ## upper_quoted -/
 
